@@ -7,6 +7,8 @@
 // raw pointers collected from the leaf arrays -- FEAT's own copy/set_vec are never used for the oracle.
 #include "c04_common.hpp"
 #include <map>
+#include <functional>
+#include <type_traits>
 #include <sstream>
 
 using namespace c04;
@@ -57,6 +59,12 @@ namespace
     {"component_copy", 1, true, true, false, true},
     {"component_copy_to", 1, false, true, false, true},
   };
+
+  // how an operand object came into being (pattern "derived objects"): the complete operation set also runs on objects
+  // that were move-assigned over a used object, cloned (deep/weak), cloned INTO a used object that shares its old storage
+  // with a bystander, or converted from the other floating point type
+  enum Deriv { D_NONE = 0, D_MOVE_ASSIGN, D_CLONE_DEEP, D_CLONE_WEAK, D_CLONE_INTO, D_CONVERT, NUM_DERIV };
+  const char* deriv_name[NUM_DERIV] = {"fresh", "move-assigned over a used object", "deep clone", "weak clone", "clone(other) into a used object with a storage-sharing bystander", "convert() from the other data type"};
 
   enum Real { R_PLAIN = 0, R_SHALLOW = 1, R_RANGE = 2, R_PARTIAL = 3 };
   const char* real_name[4] = {"same-object", "shallow-clone", "range-view", "partial(first component shared)"};
@@ -137,6 +145,9 @@ namespace
     verif::Ctx& c;
     const std::string& kname;
     int op, shape, pj, real, vs, ai;
+    int deriv = D_NONE;
+    std::vector<std::shared_ptr<void>> store2;                // sources of other types (convert)
+    std::vector<std::function<bool()>> bystanders;            // sources / bystanders of derived objects must stay as they were
 
     std::vector<std::unique_ptr<V>> store;   // owned objects (bases first, so that views die before ... see dtor order below)
     V* o[3] = {nullptr, nullptr, nullptr};
@@ -153,12 +164,68 @@ namespace
       while(!store.empty()) store.pop_back();
     }
 
+    std::string pass_name;
     std::string key(const std::string& what) const
     {
-      return kname + "." + ops[op].name + " " + part_name(ops[op].arity, pj) + " " + real_name[real] + ": " + what;
+      return kname + "." + ops[op].name + " " + part_name(ops[op].arity, pj) + " " + real_name[real] + ": " + what + pass_name;
     }
 
     V* add(V&& v) { store.emplace_back(new V(std::move(v))); return store.back().get(); }
+
+    /// fills an object with a marker value and registers the check that it still holds it later
+    template<typename W> void mark(W& w, double m)
+    {
+      typedef typename W::DataType DW;
+      auto pp = std::make_shared<std::vector<DW*>>();
+      collect(w, *pp);
+      for(DW* q : *pp) *q = DW(m);
+      bystanders.push_back([pp, m]{ for(DW* q : *pp) if(!(*q == DW(m))) return false; return true; });
+    }
+
+    V* make_derived()
+    {
+      const int other = shape == 0 ? 1 : shape - 1;
+      switch(deriv)
+      {
+      case D_MOVE_ASSIGN:
+      {
+        V* t = add(K::make(other));
+        { std::vector<DT*> q; collect(*t, q); for(DT* x : q) *x = DT(333); }
+        *t = K::make(shape);
+        return t;
+      }
+      case D_CLONE_DEEP: case D_CLONE_WEAK:
+      {
+        V* src = add(K::make(shape)); mark(*src, 555);
+        return add(src->clone(deriv == D_CLONE_DEEP ? CloneMode::Deep : CloneMode::Weak));
+      }
+      case D_CLONE_INTO:
+      {
+        V* src = add(K::make(shape)); mark(*src, 555);
+        V* t = add(K::make(other));
+        V* by = add(t->clone(CloneMode::Shallow)); mark(*by, 777);   // shares the arrays t holds now
+        t->clone(*src, CloneMode::Deep);
+        return t;
+      }
+      case D_CONVERT:
+      {
+        typedef typename std::conditional<std::is_same<DT, double>::value, float, double>::type DT2;
+        typedef typename V::template ContainerType<DT2, IT> V2;
+        auto src = std::make_shared<V2>(Kind<V2>::make(shape));
+        store2.push_back(src);
+        mark(*src, 555);
+        V* t = add(K::make(other));
+        { std::vector<DT*> q; collect(*t, q); for(DT* x : q) *x = DT(333); }
+        t->convert(*src);
+        // the converted object holds the source's values
+        { std::vector<DT*> q; collect(*t, q); bool ok = true; for(DT* x : q) if(!(*x == DT(555))) ok = false;
+          c.check(ok, kname + ".convert: values", "convert() from the other data type did not deliver the source values"); }
+        return t;
+      }
+      default:
+        return add(K::make(shape));
+      }
+    }
 
     void build()
     {
@@ -185,7 +252,7 @@ namespace
               continue;
             }
           }
-          rep[cl] = add(K::make(shape));
+          rep[cl] = make_derived();
           o[p] = rep[cl];
         }
         else
@@ -208,15 +275,28 @@ namespace
           }
         }
       }
-      // write the operand values position by position (later positions overwrite shared memory), then read back
+      fill_values(0);
+    }
+
+    /// writes the operand values position by position (later positions overwrite shared memory), then reads them back
+    void fill_values(int shift)
+    {
+      const int ar = ops[op].arity;
       for(int p = 0; p < ar; ++p)
       {
         ptr[p].clear(); collect(*o[p], ptr[p]);
         for(size_t i = 0; i < ptr[p].size(); ++i)
         {
-          LD v = value(vs, p, Index(i), Index(ptr[p].size()));
+          LD v = value(vs, p + shift, Index(i), Index(ptr[p].size()));
           if(op == CINV && p == 1 && v == LD(0)) v = LD(0.75);
           *ptr[p][i] = DT(v);
+          if(vs == VS_EXTREME)
+          {
+            // per data type: half the largest finite number, the smallest normal number, denormals, both signs
+            typedef std::numeric_limits<DT> NL;
+            const DT tbl[6] = {DT(NL::max() / DT(2)), DT(-(NL::max() / DT(2))), NL::min(), DT(-NL::min()), DT(NL::denorm_min() * DT(3)), DT(-(NL::denorm_min() * DT(5)))};
+            *ptr[p][i] = tbl[(i + 2 * size_t(p + shift) + (i / 6)) % 6];
+          }
         }
       }
       // component_invert must not see zeros through shared memory either
@@ -262,16 +342,32 @@ namespace
       bool gok = true;
       for(auto& g : guards) if(!(*g.first == g.second)) gok = false;
       c.check(gok, key("wrote outside the ranged view"), "guard entry of the base vector next to the view was modified");
+      bool bok = true;
+      for(auto& b : bystanders) if(!b()) bok = false;
+      c.check(bok, kname + " " + deriv_name[deriv] + ": source/bystander of the derived operand modified", "the object an operand was cloned/converted from (or a vector sharing the target's previous storage) changed");
     }
 
+    /// pattern "re-invocation": the operation runs twice on the same objects, the second time on the results of the first
     void run()
+    {
+      build();
+      run_pass(0);
+      // mutating operations continue on their own results; reductions/observations get NEW operand values written through
+      // the raw pointers, so that anything cached by the first invocation is stale
+      if(!ops[op].mutates) fill_values(1);
+      for(int p = 0; p < ops[op].arity; ++p) for(size_t i = 0; i < ptr[p].size(); ++i) pre[p][i] = *ptr[p][i];
+      if(op == CINV) for(DT x : pre[1]) if(x == DT(0) || !(x == x)) return;   // 0/x made a zero denominator through aliasing
+      run_pass(1);
+    }
+
+    void run_pass(int pass)
     {
       const OpDesc& od = ops[op];
       const int ar = od.arity;
       const Alpha& al = alphas[ai];
       const DT a = DT(al.v);
-      build();
       const size_t n = ptr[0].size();
+      pass_name = pass ? " [2nd invocation on the same objects]" : "";
       const bool exact_in = vs_exact(vs) && (!od.alpha || al.exact);
       const LD e = eps();
 
@@ -565,42 +661,42 @@ namespace
   // ------------------------------------------------------------------------------------------------ sparse vectors
   // A sparse vector is a history object: element writes append, reads sort + deduplicate lazily, the arrays grow in
   // steps of min(size,1000). Cases = all operation sequences over {set(i) : i<n} u {S = force sort} up to length n+2.
-  template<typename DT, int BS> struct SparseSel;
-  template<typename DT> struct SparseSel<DT, 1>
+  template<typename DT, int BS, typename IT = Index> struct SparseSel;
+  template<typename DT, typename IT> struct SparseSel<DT, 1, IT>
   {
-    typedef SparseVector<DT, Index> SV;
+    typedef SparseVector<DT, IT> SV;
     typedef DT Val;
     static Val mk(const DT* v) { return v[0]; }
     static DT comp(const Val& v, int) { return v; }
     static SV from_arrays(Index n, const std::vector<DT>& vals, const std::vector<Index>& idx)
     {
-      DenseVector<DT, Index> e{Index(idx.size())};
-      DenseVector<Index, Index> ix{Index(idx.size())};
-      for(size_t k = 0; k < idx.size(); ++k) { e.elements()[k] = vals[k]; ix.elements()[k] = idx[k]; }
+      DenseVector<DT, IT> e{Index(idx.size())};
+      DenseVector<IT, IT> ix{Index(idx.size())};
+      for(size_t k = 0; k < idx.size(); ++k) { e.elements()[k] = vals[k]; ix.elements()[k] = IT(idx[k]); }
       return SV(n, e, ix, false);
     }
   };
-  template<typename DT, int BS> struct SparseSel
+  template<typename DT, int BS, typename IT> struct SparseSel
   {
-    typedef SparseVectorBlocked<DT, Index, BS> SV;
+    typedef SparseVectorBlocked<DT, IT, BS> SV;
     typedef Tiny::Vector<DT, BS> Val;
     static Val mk(const DT* v) { Val t; for(int j = 0; j < BS; ++j) t[j] = v[j]; return t; }
     static DT comp(const Val& v, int j) { return v[j]; }
     static SV from_arrays(Index n, const std::vector<DT>& vals, const std::vector<Index>& idx)
     {
-      DenseVectorBlocked<DT, Index, BS> e{Index(idx.size())};
-      DenseVector<Index, Index> ix{Index(idx.size())};
+      DenseVectorBlocked<DT, IT, BS> e{Index(idx.size())};
+      DenseVector<IT, IT> ix{Index(idx.size())};
       for(size_t k = 0; k < vals.size(); ++k) e.template elements<Perspective::pod>()[k] = vals[k];
-      for(size_t k = 0; k < idx.size(); ++k) ix.elements()[k] = idx[k];
+      for(size_t k = 0; k < idx.size(); ++k) ix.elements()[k] = IT(idx[k]);
       return SV(n, e, ix, false);
     }
   };
 
-  template<typename DT, int BS>
-  void check_sparse_state(verif::Ctx& c, const std::string& kname, const std::string& how, const typename SparseSel<DT, BS>::SV& sv, Index n,
+  template<typename DT, int BS, typename IT = Index>
+  void check_sparse_state(verif::Ctx& c, const std::string& kname, const std::string& how, const typename SparseSel<DT, BS, IT>::SV& sv, Index n,
     const std::map<Index, std::vector<DT>>& model)
   {
-    typedef SparseSel<DT, BS> S;
+    typedef SparseSel<DT, BS, IT> S;
     auto key = [&](const std::string& w) { return kname + " " + how + ": " + w; };
     c.check(sv.size() == n, key("size"), "size() changed");
     if(!c.check(sv.used_elements() == Index(model.size()), key("used_elements"), [&]{
@@ -608,7 +704,7 @@ namespace
     // arrays: strictly ascending indices, last written value per index
     if(!model.empty())
     {
-      const Index* ix = sv.indices();
+      const IT* ix = sv.indices();
       const DT* ev = sv.template elements<Perspective::pod>();
       size_t k = 0; bool ok = true;
       for(auto& m : model)
@@ -667,10 +763,10 @@ namespace
   const char* sobs_name[O_GET0] = {"max_element", "min_element", "max_abs_element", "min_abs_element", "used_elements", "indices()", "elements()", "sort()",
     "clone(Deep)", "operator==", "write_out/read_from(binary)", "operator<<", "format", "move"};
 
-  template<typename DT, int BS>
+  template<typename DT, int BS, typename IT = Index>
   void run_sparse(verif::Ctx& c, const std::string& kname)
   {
-    typedef SparseSel<DT, BS> S;
+    typedef SparseSel<DT, BS, IT> S;
     typedef typename S::SV SV;
     typedef std::map<Index, std::vector<DT>> Model;
     // rich alphabet {set(i), S = used_elements(), R = the four reductions} with first-observation replays up to nrich;
@@ -745,11 +841,11 @@ namespace
             replay(sv, model, true);
             if(realloc_seen) c.count("sparse_histories_with_reallocation");
             if(raw_idx.size() > model.size()) c.count("sparse_histories_with_duplicates");
-            check_sparse_state<DT, BS>(c, kname, "history", sv, Index(n), model);
+            check_sparse_state<DT, BS, IT>(c, kname, "history", sv, Index(n), model);
             // deep clone holds the same data in its own arrays
             {
               SV cl = sv.clone(CloneMode::Deep);
-              check_sparse_state<DT, BS>(c, kname, "clone(Deep)", cl, Index(n), model);
+              check_sparse_state<DT, BS, IT>(c, kname, "clone(Deep)", cl, Index(n), model);
               c.check(cl == sv, kname + " clone(Deep): operator==", "a deep clone does not compare equal");
               if(!model.empty()) c.check(cl.indices() != sv.indices() && (const void*)cl.template elements<Perspective::pod>() != (const void*)sv.template elements<Perspective::pod>(), kname + " clone(Deep): memory", "deep clone shares arrays");
             }
@@ -757,14 +853,14 @@ namespace
             if(!raw_idx.empty())
             {
               SV fa = S::from_arrays(Index(n), raw_vals, raw_idx);
-              check_sparse_state<DT, BS>(c, kname, "ctor(size,values,indices,unsorted)", fa, Index(n), model);
+              check_sparse_state<DT, BS, IT>(c, kname, "ctor(size,values,indices,unsorted)", fa, Index(n), model);
             }
             // format sets every stored entry
             {
               sv.format(DT(2.5));
               Model m2;
               for(auto& m : model) m2[m.first] = std::vector<DT>(size_t(BS), DT(2.5));
-              check_sparse_state<DT, BS>(c, kname, "format", sv, Index(n), m2);
+              check_sparse_state<DT, BS, IT>(c, kname, "format", sv, Index(n), m2);
             }
           }
           // ---- first observations: fresh object per observation, the observation is the first call after the history
@@ -796,7 +892,7 @@ namespace
               case O_INDICES: case O_ELEMENTS:
               {
                 if(model.empty()) break;
-                const Index* ix = nullptr; const DT* ev = nullptr;
+                const IT* ix = nullptr; const DT* ev = nullptr;
                 if(ob == O_INDICES) { ix = csv.indices(); ev = csv.template elements<Perspective::pod>(); }
                 else { ev = csv.template elements<Perspective::pod>(); ix = csv.indices(); }
                 size_t k = 0; bool ok = true;
@@ -816,13 +912,13 @@ namespace
               case O_CLONE:
               {
                 SV cl = csv.clone(CloneMode::Deep);
-                check_sparse_state<DT, BS>(c, kname, "first observation clone(Deep) [the clone]", cl, Index(n), model);
+                check_sparse_state<DT, BS, IT>(c, kname, "first observation clone(Deep) [the clone]", cl, Index(n), model);
                 break;
               }
               case O_EQ:
               {
                 SV other{Index(n)};
-                for(auto& m : model) other(m.first, S::mk(m.second.data()));
+                for(auto& m : model) other(Index(m.first), S::mk(m.second.data()));
                 c.check(csv == other, key, "vector does not compare equal to one holding the final entries");
                 // a vector differing in one stored value must not compare equal
                 if(!model.empty())
@@ -839,7 +935,7 @@ namespace
                 std::stringstream ss;
                 csv.write_out(FileMode::fm_binary, ss);
                 SV rd(FileMode::fm_binary, ss);
-                check_sparse_state<DT, BS>(c, kname, "first observation write_out/read_from(binary) [read back]", rd, Index(n), model);
+                check_sparse_state<DT, BS, IT>(c, kname, "first observation write_out/read_from(binary) [read back]", rd, Index(n), model);
                 break;
               }
               case O_STREAM:
@@ -856,14 +952,14 @@ namespace
                 sv.format(DT(2.5));
                 Model m2;
                 for(auto& m : model) m2[m.first] = std::vector<DT>(size_t(BS), DT(2.5));
-                check_sparse_state<DT, BS>(c, kname, "first observation format", sv, Index(n), m2);
+                check_sparse_state<DT, BS, IT>(c, kname, "first observation format", sv, Index(n), m2);
                 post_check = false;
                 break;
               }
               case O_MOVE:
               {
                 SV mv(std::move(sv));
-                check_sparse_state<DT, BS>(c, kname, "first observation move [the target]", mv, Index(n), model);
+                check_sparse_state<DT, BS, IT>(c, kname, "first observation move [the target]", mv, Index(n), model);
                 post_check = false;
                 break;
               }
@@ -879,7 +975,7 @@ namespace
               }
               }
               // the observation must leave a consistent object behind
-              if(post_check) check_sparse_state<DT, BS>(c, kname, "after first observation " + on, sv, Index(n), model);
+              if(post_check) check_sparse_state<DT, BS, IT>(c, kname, "after first observation " + on, sv, Index(n), model);
               c.count("sparse_first_observations");
             }
           }
@@ -929,7 +1025,7 @@ namespace
             if(real == R_RANGE && (!K::ranged || flat == 0)) continue; // a ranged view needs size > 0
             if(real == R_RANGE && (op == CLONE_WEAK || op == CLONE_SHALLOW)) continue; // asserted: ranged sources need deep cloning
             // value sets
-            std::vector<int> vss = {VS_DYADIC, VS_ZEROS, VS_SPREAD, VS_ROUND, VS_ROT};
+            std::vector<int> vss = {VS_DYADIC, VS_ZEROS, VS_SPREAD, VS_ROUND, VS_ROT, VS_NEG, VS_POS, VS_EXTREME};
             // selection operations: every rank permutation of the magnitudes x every sign mask
             const bool selection = (op == MAXABS || op == MINABS || op == MAXE || op == MINE || op == MAXABSB || op == MINABSB || op == MAXEB || op == MINEB);
             const Index maxperm = c.thorough ? 6 : 5;
@@ -942,22 +1038,31 @@ namespace
             {
               // sign masks only matter for the target operand: restrict them to ops that read the target
               if(vs >= VS_SIGN0 && (op == SCALE || op == CPROD || op == CINV || op == COPY || op == COPYFULL || op == FORMAT || op == FROM_DV || op == SCALEB)) continue;
+              // extreme magnitudes only where the result is a single IEEE operation or a selection (sums would overflow)
+              if(vs == VS_EXTREME && !(op == SCALE || op == CPROD || op == CINV || op == COPY || op == COPYFULL || selection || op == CLONE_DEEP || op == CLONE_WEAK || op == CLONE_SHALLOW
+                || op == TO_DV || op == FROM_DV || op == SCALEB || op == CCOPY || op == CCOPYTO)) continue;
+              for(int deriv = 0; deriv < NUM_DERIV; ++deriv)
               for(int ai = 0; ai < (od.alpha ? num_alphas : 1); ++ai)
               {
+                // derivation is structural: combined with the basic value sets only, not with ranged views
+                if(deriv != D_NONE && (real == R_RANGE || vs >= VS_SIGN0 || vs == VS_SPREAD || vs == VS_ROUND || vs == VS_POS)) continue;
+                if(deriv != D_NONE && od.alpha && !(ai == 0 || ai == 3 || ai == 7)) continue;
                 if((op == CCOPY || op == CCOPYTO) && ai >= K::BS) continue;   // alpha index = component index
                 if(op == FORMAT && ai >= 4) continue;
                 if(!c.want()) continue;
                 c.desc([&]{
                   return kname + " " + od.name + " " + K::shape_name(shape) + " alias=" + part_name(od.arity, pj) + " realisation=" + real_name[real]
-                    + " values=" + vs_name(vs) + (od.alpha ? std::string(" alpha#") + alphas[ai].name : std::string()); });
+                    + " values=" + vs_name(vs) + (od.alpha ? std::string(" alpha#") + alphas[ai].name : std::string()) + " operands=" + deriv_name[deriv]; });
                 const size_t pool0 = MemoryPool::_pool.size();
                 {
                   Case<V> cs(c, kname, op, shape, pj, real, vs, ai);
+                  cs.deriv = deriv;
                   cs.run();
                 }
                 c.check(MemoryPool::_pool.size() == pool0, kname + "." + od.name + ": memory pool entries leaked", "MemoryPool has more live allocations after the case than before");
-                c.count("operations_checked");
-                if(flat > 0) c.nontrivial(verif::Hash().str(kname).pod(op).pod(shape).pod(pj).pod(real).pod(vs).pod(ai).get());
+                c.count("operations_checked", 2);
+                if(deriv != D_NONE) c.count("cases_on_derived_operands");
+                if(flat > 0) c.nontrivial(verif::Hash().str(kname).pod(op).pod(shape).pod(pj).pod(real).pod(vs).pod(ai).pod(deriv).get());
                 else c.count("empty_vector_cases");
                 (void)sizeof(DT);
               }
@@ -976,10 +1081,10 @@ int main(int argc, char** argv)
   spec.rule = "cases = (vector kind, operation, shape, alias partition of the operand tuple, realisation of the aliasing "
     "[same object | shallow clone | ranged views of one base | composed vector sharing only its first component], value set, scalar). "
     "A case is non-trivial iff the flattened length is >= 1; hashed by all enumeration coordinates.";
-  spec.bounds_quick = "kinds: DV<double|float> (Index), DV<float,u32>, DVB<double,2|3>, DVB<float,2>, Tuple<DV,DVB2><double|float>, Power<DV,2|3><double>, Power<DVB2,2><float>, Tuple<Power<DV,2>,DV><double>; "
+  spec.bounds_quick = "kinds: DV<double|float> (Index), DV<float,u32>, DVB<double,2|3>, DVB<float,2>, DVB<double,u32,3>, Tuple<DV,DVB2><double|float>, Power<DV,2|3><double>, Power<DVB2,2><float>, Tuple<Power<DV,2>,DV><double>; "
     "DV length 0..20, DVB blocks 0..7, power sub-size 0..6, 10 tuple shapes; 32 operations; all set partitions of 2/3 operands x 2-4 realisations; "
     "value sets dyadic, dyadic-rotated, dyadic+zeros, spread 2^+-26, rounding, all sign masks for flat length <= 6, all (rank permutation x sign mask) for flat length <= 5 in the min/max operations; 9 scalars; "
-    "sparse vectors (SparseVector<double|float>, SparseVectorBlocked<double,2>, <float,3>): size 0..4 all histories over {set(i), S=used_elements, R=four reductions} up to length size+2, each followed on a FRESH replay by every "
+    "every case runs the operation twice on the same objects; operands also as derived objects (move-assigned, deep/weak clone, clone-into with bystander, convert from the other data type); value sets also all-negative, all-positive, extreme magnitudes (max/2, min normal, denormals) for the single-rounding and selection operations; sparse vectors (SparseVector<double|float|double,u32>, SparseVectorBlocked<double,2>, <float,3>, <float,u32,2>): size 0..4 all histories over {set(i), S=used_elements, R=four reductions} up to length size+2, each followed on a FRESH replay by every "
     "first observation (4 reductions, used_elements, indices, elements, sort, clone, ==, write/read, <<, format, move, operator()(i) for every i); size 5: all histories over {set(i), S} up to length 7";
   spec.bounds_thorough = "as quick with DV length 0..36, DVB blocks 0..12, sub-size 0..9, 14 tuple shapes, sign masks for flat length <= 8, rank permutations for flat length <= 6, sparse rich histories for size 0..5, plain histories for size 6 (length 8)";
   spec.assumptions = {
@@ -1002,6 +1107,7 @@ int main(int argc, char** argv)
     run_kind<DVB2d>(c, "DVB<double,2>");
     run_kind<DVB3d>(c, "DVB<double,3>");
     run_kind<DVB2f>(c, "DVB<float,2>");
+    run_kind<DenseVectorBlocked<double, unsigned int, 3>>(c, "DVB<double,u32,3>");
     run_kind<TupleVector<DVd, DVB2d>>(c, "Tuple<DV,DVB2><double>");
     run_kind<TupleVector<DVf, DVB2f>>(c, "Tuple<DV,DVB2><float>");
     run_kind<PowerVector<DVd, 2>>(c, "Power<DV,2><double>");
@@ -1012,5 +1118,8 @@ int main(int argc, char** argv)
     run_sparse<float, 1>(c, "SparseVector<float>");
     run_sparse<double, 2>(c, "SparseVectorBlocked<double,2>");
     run_sparse<float, 3>(c, "SparseVectorBlocked<float,3>");
+    // index type u32 (the duplicate marker of sort() is numeric_limits<IT>::max())
+    run_sparse<double, 1, unsigned int>(c, "SparseVector<double,u32>");
+    run_sparse<float, 2, unsigned int>(c, "SparseVectorBlocked<float,u32,2>");
   });
 }
